@@ -449,14 +449,18 @@ pub fn gen_c08(seed: u64, i: u64, thorough: bool) -> Value {
     let s = mix(seed, "C08", i);
     let mut rng = Rng::new(s);
     // git costs ~20 ms per call: fewer and shorter runs there
-    let backend = *rng.pick(if thorough { &[B_LOCAL, B_CLOUD, B_GIT_LOCAL, B_GIT_REMOTE, B_LOCAL, B_CLOUD, B_HTTP] } else { &[B_LOCAL, B_LOCAL, B_LOCAL, B_CLOUD, B_CLOUD, B_CLOUD, B_CLOUD, B_GIT_LOCAL, B_GIT_REMOTE, B_LOCAL, B_CLOUD, B_CLOUD, B_LOCAL, B_LOCAL, B_LOCAL, B_CLOUD, B_CLOUD, B_CLOUD, B_CLOUD, B_LOCAL, B_CLOUD, B_LOCAL, B_CLOUD, B_HTTP] });
+    let backend = *rng.pick(if thorough {
+        &[B_LOCAL, B_CLOUD, B_GIT_LOCAL, B_GIT_REMOTE, B_GIT_REMOTE, B_LOCAL, B_CLOUD, B_HTTP]
+    } else {
+        &[B_LOCAL, B_LOCAL, B_LOCAL, B_LOCAL, B_LOCAL, B_LOCAL, B_LOCAL, B_LOCAL, B_CLOUD, B_CLOUD, B_CLOUD, B_CLOUD, B_CLOUD, B_CLOUD, B_CLOUD, B_CLOUD, B_GIT_LOCAL, B_GIT_LOCAL, B_GIT_REMOTE, B_GIT_REMOTE, B_GIT_REMOTE, B_GIT_REMOTE, B_HTTP, B_HTTP]
+    });
     let git = backend == B_GIT_LOCAL || backend == B_GIT_REMOTE;
     let raw = rng.chance(2, 3);
-    let nodes = if backend == B_GIT_LOCAL { 1 } else { *rng.pick(&[1usize, 2, 2, 3]) };
+    let nodes = if backend == B_GIT_LOCAL { 1 } else if backend == B_GIT_REMOTE { 2 } else { *rng.pick(&[1usize, 2, 2, 3]) };
     let mut scripts = Vec::new();
     let mut ts = 0i64;
     for _ in 0..nodes {
-        let len = if git { 1 + rng.usize_below(4) } else { 2 + rng.usize_below(10) };
+        let len = if git { 1 + rng.usize_below(5) } else { 2 + rng.usize_below(10) };
         let mut sc = Vec::new();
         for _ in 0..len {
             if raw {
@@ -466,7 +470,10 @@ pub fn gen_c08(seed: u64, i: u64, thorough: bool) -> Value {
                     6..=8 => VRef::Chain(rng.below(8) as u8),
                     _ => VRef::Unknown(rng.below(4) as u8),
                 };
-                let call = match rng.below(20) {
+                // clones of a shared git remote: mostly additions on the latest version and
+                // snapshots, so that one clone's push meets commits the other has not fetched
+                let roll = if backend == B_GIT_REMOTE { *rng.pick(&[0u64, 1, 2, 3, 4, 5, 9, 14, 14, 15, 16]) } else { rng.below(20) };
+                let call = match roll {
                     0..=8 => SrvCall::Add { parent: vref(&mut rng), payload: *rng.pick(&[0u8, 1, 1, 2, 4, 1, 3]) },
                     9..=13 => SrvCall::GetChild { parent: vref(&mut rng) },
                     14..=15 => {
@@ -606,7 +613,7 @@ pub fn checks() -> Vec<CheckDef> {
     CheckDef {
         id: "C08",
         level: "exploration",
-        runs_quick: 2_400,
+        runs_quick: 1_800,
         runs_thorough: 60_000,
         rule: "one seeded call sequence (add-version with the latest / an older / the nil / an unknown parent, get-child-version of known, unknown and nil parents, add-snapshot, get-snapshot; payloads empty, text, non-UTF-8, all byte values, one megabyte) issued through 1-3 handles obtained from ServerConfig::into_server (object store: the hook constructor) on the local server, the object-store server, the git server (local-only, and clones sharing a bare remote), with handles dropped and reopened at seeded points; every reply is compared with the reference chain model by a proxy (accept iff parent is latest or nothing exists, rejection names the latest and changes nothing, child versions byte for byte, unknown parent -> no such version, snapshots exactly as stored) and a fresh handle finally re-reads the whole chain; in a third of the runs whole replicas sync through the backend instead and must converge with the mirrored chain. Non-trivial: a version was rejected or a handle reopened; distinct = distinct trace hash.",
         gen: gen_c08,
